@@ -647,4 +647,24 @@ theorem parse_erasePos (ts : List (Tok S)) :
   simp only [parse, List.length_map]
   exact parseLoop_erasePos _ _ ts
 
+/-- scanning then parsing under two configurations that differ only in the tab size: if the
+    first scan succeeds so does the second, the tokens agree up to positions, and the parse
+    results (statements or parse error) agree up to positions -/
+theorem scan_parse_erasePos [Kernel S] (cfg₁ cfg₂ : ScanCfg S)
+    (ha : cfg₁.isAlnum = cfg₂.isAlnum) (hk : cfg₁.keyword = cfg₂.keyword) (t : List Char)
+    (toks₁ : List (Tok S)) (h1 : scan cfg₁ t = .ok toks₁) :
+    ∃ toks₂, scan cfg₂ t = .ok toks₂ ∧
+      toks₁.map Tok.erasePos = toks₂.map Tok.erasePos ∧
+      (parse toks₁).erasePos = (parse toks₂).erasePos := by
+  have h := scan_erasePos cfg₁ cfg₂ ha hk t
+  rw [h1] at h
+  cases h2 : scan cfg₂ t with
+  | ok toks₂ =>
+    rw [h2] at h
+    simp only [ScanRes.erasePos, ScanRes.ok.injEq] at h
+    exact ⟨toks₂, rfl, h, by rw [← parse_erasePos, ← parse_erasePos, h]⟩
+  | bad e => rw [h2] at h; simp [ScanRes.erasePos] at h
+  | panic s => rw [h2] at h; simp [ScanRes.erasePos] at h
+  | fuel => rw [h2] at h; simp [ScanRes.erasePos] at h
+
 end Calc
